@@ -103,11 +103,13 @@ func (cs *ConnectionState) Decrypt(l *slog.Logger, messageCounter uint64, packet
 	if !result {
 		return nil, ErrAlreadySeen
 	}
+	verifPoint(verifDecryptAfterCheck)
 
 	out, err := cs.dKey.DecryptDanger(packet[header.Len:header.Len], packet[:header.Len], packet[header.Len:], messageCounter, nb)
 	if err != nil {
 		return nil, err
 	}
+	verifPoint(verifDecryptBeforeUpdate)
 
 	cs.decryptLock.Lock()
 	result = cs.window.Update(l, messageCounter)
@@ -125,6 +127,7 @@ func (cs *ConnectionState) VerifyRelay(l *slog.Logger, messageCounter uint64, pa
 	if !result {
 		return ErrAlreadySeen
 	}
+	verifPoint(verifDecryptAfterCheck)
 
 	// The entire body is sent as AD, not encrypted.
 	// The packet consists of a 16-byte parsed Nebula header, Associated Data-protected payload, and a trailing 16-byte AEAD signature value.
@@ -137,6 +140,7 @@ func (cs *ConnectionState) VerifyRelay(l *slog.Logger, messageCounter uint64, pa
 	if err != nil {
 		return err
 	}
+	verifPoint(verifDecryptBeforeUpdate)
 
 	cs.decryptLock.Lock()
 	result = cs.window.Update(l, messageCounter)
